@@ -15,6 +15,7 @@ import (
 	"sort"
 	"strings"
 	"sync"
+	"sync/atomic"
 	"testing"
 	"time"
 
@@ -169,7 +170,10 @@ type recResult struct {
 	Panic    string
 	Extra    int // messages delivered after the sentinel (must be 0)
 	CloseErr string
+	Skipped  bool
 }
+
+var hungRecoveries int32
 
 // recover a snapshot: reopen the queue on its files, enqueue a sentinel, drain up to the sentinel.
 func recoverSnapshot(dir string, h *history, s *snapshot) (res recResult) {
@@ -473,7 +477,7 @@ func TestDQ(t *testing.T) {
 	}
 	defer os.RemoveAll(work)
 	nworkers := hx.EnvInt("VERIF_DQ_WORKERS", 16)
-	nrec, nuniq := 0, 0
+	nrec, nuniq, nhung := 0, 0, 0
 	const chunk = 64
 	for base := 0; base < len(hs); base += chunk {
 		end := base + chunk
@@ -482,7 +486,19 @@ func TestDQ(t *testing.T) {
 		}
 		recs := make([]*recorder, end-base)
 		for i := base; i < end; i++ {
+			if nhung >= 5 {
+				// the queue hangs: every further history would cost its 20 s timeouts; what is
+				// recorded so far already shows it
+				recs[i-base] = &recorder{events: []map[string]interface{}{{"ev": "skipped"}}}
+				continue
+			}
 			recs[i-base] = record(hs[i], filepath.Join(work, "rec"), lvlB)
+			for _, ev := range recs[i-base].events {
+				if ev["ev"] == "hang" {
+					nhung++
+					break
+				}
+			}
 		}
 		// recover every distinct (filesystem, marks) snapshot of the chunk in parallel
 		type job struct {
@@ -509,8 +525,18 @@ func TestDQ(t *testing.T) {
 			go func(w int) {
 				defer wg.Done()
 				for j := range ch {
+					if atomic.LoadInt32(&hungRecoveries) >= 8 {
+						// recoveries hang (20 s each): enough has been shown, skip the rest
+						mu.Lock()
+						results[j.k] = &recResult{Skipped: true}
+						mu.Unlock()
+						continue
+					}
 					progress.Emit(map[string]interface{}{"recovering": j.h.H, "label": j.s.label, "marks": j.s.m, "fs": j.s.fs.abstract(), "maxbytes": j.h.MaxBytes, "syncevery": j.h.SyncEvery, "ops": j.h.Ops})
 					res := recoverSnapshot(filepath.Join(work, fmt.Sprintf("w%d", w)), j.h, j.s)
+					if res.Hang {
+						atomic.AddInt32(&hungRecoveries, 1)
+					}
 					mu.Lock()
 					results[j.k] = &res
 					mu.Unlock()
@@ -538,6 +564,7 @@ func TestDQ(t *testing.T) {
 				ev["hang"] = res.Hang
 				ev["extra"] = res.Extra
 				ev["err"] = res.CloseErr
+				ev["skipped"] = res.Skipped
 				ev["m"] = []int{s.m.N, s.m.C, s.m.WS, s.m.CS}
 				nrec++
 			}
